@@ -1428,7 +1428,7 @@ Section Abstract.
       destruct MA as [Ds Es]. rewrite Es.
       destruct (existsb (fun a => negb (isnum a)) args); cbn [negb]; [|split; [exact Hwm | apply andb_false_r]].
       assert (Ds2 : Forall2 (DS venv') vs (map mk (map as_rec rs))).
-      { clear -Ds. induction Ds; cbn; constructor; [apply DS_asrec|]; assumption. }
+      { clear -Ds H0. induction Ds; cbn; [constructor | constructor; [apply DS_asrec; assumption | assumption]]. }
       destruct (call_args_values venv' vs (map as_rec rs) Ds2) as [xs' [Fp [Ek Em]]].
       assert (Hpx : Forall2 (@Permutation (Z * R)) (map as_mv vs) xs').
       { clear -Fp. induction Fp; cbn; constructor; assumption. }
